@@ -20,7 +20,7 @@ def reasonStr : Reason → String
 
 def frameStr : Frame → String
   | .ack hb => s!"ACK hb={hb}" | .authOk => "AUTH_OK" | .authRetry => "AUTH_RETRY" | .reply => "REPLY"
-  | .ping n => s!"PING#{n}" | .error r => "ERROR " ++ reasonStr r | .eof => "EOF"
+  | .ping n => s!"PING#{n}" | .pushed => "PUSH" | .error r => "ERROR " ++ reasonStr r | .eof => "EOF"
 
 /-- print what each connection wrote since the last observation -/
 def flush (st : St) (pre : List String) : St × String :=
@@ -69,6 +69,9 @@ def handle (st : St) (line : String) : St × Option String :=
     (st', some o)
   | ["t", "pong", k, n] =>
     let (st', o) := flush (onConn st (k.toNat?.getD 0) (fun s => step s (.pong (n.toNat?.getD 0)))) []
+    (st', some o)
+  | ["t", "push", k] =>
+    let (st', o) := flush (onConn st (k.toNat?.getD 0) (fun s => step s .deliver)) []
     (st', some o)
   | ["t", "close", k] =>
     let (st', o) := flush (onConn st (k.toNat?.getD 0) (fun s => step s .peerClose)) []
